@@ -329,7 +329,19 @@ fn c05_position(rng: &mut Rng, i: u64) -> Pos {
         0 | 1 | 2 | 3 => gen::g_game_pos(rng),
         4 => gen::corpus_pos(rng.below(gen::CORPUS.len() as u64) as usize),
         5 | 6 => gen::g_small(rng, 8),
-        7 => gen::synth(rng),
+        7 => {
+            if rng.chance(1, 4) {
+                gen::synth(rng)
+            } else {
+                // batteries: discovered checks / mates near the horizon
+                if rng.chance(1, 2) {
+                    return gen::g_battery_loaded(rng);
+                }
+                let p = gen::g_battery(rng);
+                let (ps, _) = gen::playout(&p, rng, 2);
+                ps[rng.below(ps.len() as u64) as usize].clone()
+            }
+        }
         8 => gen::g_promo(rng),
         9 | 10 => gen::g_underpromo(rng),
         11 => gen::g_ep(rng),
@@ -366,13 +378,13 @@ const STUDIES: &[&str] = &[
 pub fn run_c05(ctx: &Ctx) -> i32 {
     let spec = Spec {
         level: "exploration",
-        rule: "a case is (position, depth, mode): mode 'id' = find_best_move on a fresh engine at depth 1..3 (public API, every run judged), mode 'fixed' = one fixed-depth search at depth 4..5 on a fresh engine (runs in which a result cached by a deeper search was returned are excluded and counted). The score class must equal the reference minimax value (leaves = the engine's own full-window quiescence), the returned move must attain it, every entry left in the transposition table must be a true claim about the reference value of the position it belongs to, and quiescence must be window-consistent. Positions: game positions of all phases, corpus, few-men positions, synthetic and promotion studies, stalemate swindles (a cornered king plus one piece to give away); positions whose reference tree or quiescence exceeds the node budget are skipped and counted. Distinct by (position, depth, mode); non-trivial when the position has more than one legal move",
+        rule: "a case is (position, depth, mode): mode 'id' = find_best_move on a fresh engine at depth 1..3 (public API, every run judged), mode 'fixed' = one fixed-depth search at depth 4..5 on a fresh engine (runs in which a result cached by a deeper search was returned are excluded and counted). The score class must equal the reference minimax value (leaves = the engine's own full-window quiescence), the returned move must attain it, every entry left in the transposition table must be a true claim about the reference value of the position it belongs to, and quiescence must be window-consistent. Positions: game positions of all phases, corpus, few-men positions, synthetic and promotion studies, stalemate swindles (a cornered king plus one piece to give away), batteries (a slider aimed at a king through one piece of its own side; 'loaded' ones in which one ply above the horizon a material-winning capture and a quiet discovered-check mate are both available); positions whose reference tree or quiescence exceeds the node budget are skipped and counted. Distinct by (position, depth, mode); non-trivial when the position has more than one legal move",
         assumptions: vec![
             "the reference rules implementation is correct (perft self-test at every run)".into(),
             "leaves are scored by the engine's own quiescence search on a full window (as the property defines the reference); that search is not itself compared with anything except for window consistency".into(),
             "depths above 5 and non-fresh engines are outside this check".into(),
         ],
-        required: if ctx.replay.is_some() { vec![] } else { vec!["judged_depth_1_id", "judged_depth_2_id", "judged_depth_3_id", "judged_depth_4_fixed", "cached_claims_audited", "claims_exact", "claims_lower", "claims_upper", "quiescence_windows_checked", "runs_with_same_depth_cached_result_returned", "value_attained_only_by_underpromotion", "value_attained_by_a_single_move", "depth_4_fixed_on_positions_with_many_men", "value_rests_on_the_stalemate_rule_at_an_interior_node", "value_is_a_draw_saved_by_stalemate_inside_the_tree"] },
+        required: if ctx.replay.is_some() { vec![] } else { vec!["judged_depth_1_id", "judged_depth_2_id", "judged_depth_3_id", "judged_depth_4_fixed", "cached_claims_audited", "claims_exact", "claims_lower", "claims_upper", "quiescence_windows_checked", "runs_with_same_depth_cached_result_returned", "value_attained_only_by_underpromotion", "value_attained_by_a_single_move", "depth_4_fixed_on_positions_with_many_men", "value_rests_on_the_stalemate_rule_at_an_interior_node", "value_is_a_draw_saved_by_stalemate_inside_the_tree", "loaded_battery_cases_judged"] },
         exhaustive: false,
         extra: vec![],
     };
@@ -443,6 +455,22 @@ pub fn run_c05(ctx: &Ctx) -> i32 {
                 break;
             }
         }
+        // loaded batteries (weak side to move; after one of its moves the strong side has a capture of a
+        // piece AND a quiet discovered-check mate): the node one ply above the horizon has to find the mate
+        // after a material gain has already raised alpha — searched so that this node sits at remaining
+        // depth 1 (root depth 2) or 2 (root depth 3)
+        let target = share(n_id / 6);
+        let mut done = 0;
+        while done < target && (done < 2 || !ctx.past(0.6)) {
+            let p = gen::g_battery_loaded(&mut rng);
+            let d = if rng.chance(2, 3) { 2 } else { 3 };
+            let before = st.evals;
+            c05_case(&p, d, "id", &mut rs, &mut st, true);
+            if st.evals > before {
+                st.bump("loaded_battery_cases_judged");
+            }
+            done += 1;
+        }
         if w == 0 {
             say!("C05 worker 0: depth 1..3 part done at {:.1}s", ctx.start.elapsed().as_secs_f64());
         }
@@ -509,6 +537,8 @@ pub fn run_c05(ctx: &Ctx) -> i32 {
 }
 
 // ------------------------------------------------------------------------------------------ C08
+
+use crate::gen::quiet_discovered_check;
 
 fn mates_in_one(p: &Pos, legal: &[Mv]) -> Vec<Mv> {
     legal
@@ -622,6 +652,9 @@ fn c08_position(p_in: &Pos, rng: &mut Rng, st: &mut Stats, only_depth: Option<u8
         for t in c08_material_tags(p) {
             st.bump(&format!("mate_in_one_trials_{}", t));
         }
+        if m1.iter().any(|m| quiet_discovered_check(p, m)) {
+            st.bump("mate_in_one_trials_where_a_mating_move_is_a_quiet_discovered_check");
+        }
         for m in m1.iter() {
             use crate::oracle::{MvKind, Q};
             if m.promo != 0 && m.promo != Q {
@@ -668,6 +701,13 @@ fn c08_position(p_in: &Pos, rng: &mut Rng, st: &mut Stats, only_depth: Option<u8
     let d = only_depth.unwrap_or_else(|| 2 + rng.below(2) as u8);
     if d < 2 || d > 3 {
         return false;
+    }
+    if legal.iter().any(|m| {
+        let n = p.make(m);
+        let nl = n.legal_moves();
+        mates_in_one(&n, &nl).iter().any(|r| quiet_discovered_check(&n, r))
+    }) {
+        st.bump("avoidable_mate_trials_where_a_threatened_mate_is_a_quiet_discovered_check");
     }
     st.case(hash64(&(p.key(), d, 1u8)), true);
     st.bump(&format!("avoidable_mate_trials_depth_{}", d));
@@ -811,9 +851,9 @@ fn g_mating_sparse(rng: &mut Rng) -> Pos {
 pub fn run_c08(ctx: &Ctx) -> i32 {
     let spec = Spec {
         level: "exploration",
-        rule: "a case is (position, depth) met along random games, synthetic positions and king-hunt studies that satisfies (a) the side to move has a mate in one (depth 1..4, depth 4 only with few men): the answer of find_best_move on a fresh engine must be one of the mating moves; or (b) no mate in one, and the legal moves split into ones that allow the opponent a mate in one and ones that do not (depth 2..3): the answer must not be one that allows it. A tenth of the trials come from sparse material around a cornered king (3..6 men: minor pieces only, lone pawns about to promote, under-promotion mates). Sets are computed with the reference rules only; half of the positions are given with hostile move counters (halfmove clock up to 99). Distinct by (position, depth, kind); (a) is non-trivial when some legal move does not mate, (b) always",
+        rule: "a case is (position, depth) met along random games, synthetic positions and king-hunt studies that satisfies (a) the side to move has a mate in one (depth 1..4, depth 4 only with few men): the answer of find_best_move on a fresh engine must be one of the mating moves; or (b) no mate in one, and the legal moves split into ones that allow the opponent a mate in one and ones that do not (depth 2..3): the answer must not be one that allows it. A tenth of the trials come from batteries (a slider aimed at the king through one piece of its own side: discovered checks and mates, with loose pieces around), a tenth from sparse material around a cornered king (3..6 men: minor pieces only, lone pawns about to promote, under-promotion mates). Sets are computed with the reference rules only; half of the positions are given with hostile move counters (halfmove clock up to 99). Distinct by (position, depth, kind); (a) is non-trivial when some legal move does not mate, (b) always",
         assumptions: vec!["the reference rules implementation is correct (perft self-test at every run)".into()],
-        required: if ctx.replay.is_some() { vec![] } else { vec!["mate_in_one_trials_depth_1", "mate_in_one_trials_depth_2", "mate_in_one_trials_depth_3", "mate_in_one_trials_depth_4", "avoidable_mate_trials_depth_2", "avoidable_mate_trials_depth_3", "positions_examined_with_hostile_move_counters", "mate_in_one_trials_minor_pieces_only", "avoidable_mate_trials_minor_pieces_only", "mate_in_one_trials_at_most_5_men", "mate_in_one_trials_one_minor_piece_each"] },
+        required: if ctx.replay.is_some() { vec![] } else { vec!["mate_in_one_trials_depth_1", "mate_in_one_trials_depth_2", "mate_in_one_trials_depth_3", "mate_in_one_trials_depth_4", "avoidable_mate_trials_depth_2", "avoidable_mate_trials_depth_3", "positions_examined_with_hostile_move_counters", "mate_in_one_trials_minor_pieces_only", "avoidable_mate_trials_minor_pieces_only", "mate_in_one_trials_at_most_5_men", "mate_in_one_trials_one_minor_piece_each", "mate_in_one_trials_where_a_mating_move_is_a_quiet_discovered_check", "avoidable_mate_trials_where_a_threatened_mate_is_a_quiet_discovered_check"] },
         exhaustive: false,
         extra: vec![],
     };
@@ -871,7 +911,18 @@ pub fn run_c08(ctx: &Ctx) -> i32 {
                         }
                     }
                 }
-                6..=7 => {
+                6 => {
+                    // batteries: discovered checks and discovered mates, for either side
+                    let p = if rng.chance(1, 2) { gen::g_battery_loaded(&mut rng) } else { gen::g_battery(&mut rng) };
+                    let (ps, _) = gen::playout(&p, &mut rng, 3);
+                    for p in ps.iter() {
+                        if c08_position(p, &mut rng, &mut st, None, 10) {
+                            trials += 1;
+                            st.bump("src_battery_trials");
+                        }
+                    }
+                }
+                7 => {
                     let p = g_mating(&mut rng);
                     let (ps, _) = gen::playout(&p, &mut rng, 6);
                     for p in ps.iter() {
